@@ -42,8 +42,17 @@ theorem mainStage_done (cfg : ExecCfg) (m : Bytes) (hr : Bool) (mh : Option (Opt
   · simp only [Stage.done.injEq] at h
     exact ⟨_, h.symm⟩
 
+/-- the two performs decide nothing but the 404 by themselves -/
+theorem performBoth_done (cfg : ExecCfg) (m : Bytes) (hr : Bool)
+    (main : Option (Rule × Bytes × Option Nat)) (copy : Option (Rule × Bytes)) (st : ExecState) (r : RouteRes)
+    (h : (performBoth cfg m hr main copy st).2 = .done r) : ∃ msg, r = .userError 404 msg := by
+  unfold performBoth at h
+  simp only at h
+  split at h <;> exact mainStage_done _ _ _ _ _ _ _ _ h
+
 /-- one pass: whatever it decides without a main response is the 404, a 407, a plain error or the
-    `secrets[0]` panic — nothing else -/
+    `secrets[0]` panic — nothing else; a 407 / plain error can only come from building the MAIN
+    request (a copy request that cannot be built is dropped) -/
 theorem routeOnce_done (cfg : ExecCfg) (m : Bytes) (hr : Bool)
     (main : Option (Rule × Bytes × Option Nat)) (copy : Option (Rule × Bytes)) (st : ExecState) (r : RouteRes)
     (h : (routeOnce cfg m hr main copy st).2 = .done r) :
@@ -60,17 +69,24 @@ theorem routeOnce_done (cfg : ExecCfg) (m : Bytes) (hr : Bool)
       · exact Or.inr (Or.inr (by rw [← h, he]))
       · exact Or.inr (Or.inl (by rw [← h, he]))
     · split at h
-      · simp only [Stage.done.injEq] at h
-        rename_i e _
-        rcases buildErrRes_cases e with ⟨msg, he⟩ | he | he
-        · exact Or.inl ⟨407, msg, by rw [← h, he], by simp [selfCodes]⟩
-        · exact Or.inr (Or.inr (by rw [← h, he]))
-        · exact Or.inr (Or.inl (by rw [← h, he]))
-      · split at h
-        · obtain ⟨msg, hm⟩ := mainStage_done _ _ _ _ _ _ _ _ h
-          exact Or.inl ⟨404, msg, hm, by simp [selfCodes]⟩
-        · obtain ⟨msg, hm⟩ := mainStage_done _ _ _ _ _ _ _ _ h
-          exact Or.inl ⟨404, msg, hm, by simp [selfCodes]⟩
+      · simp only [Stage.done.injEq] at h; exact Or.inr (Or.inr h.symm)
+      · obtain ⟨msg, hm⟩ := performBoth_done _ _ _ _ _ _ _ h
+        exact Or.inl ⟨404, msg, hm, by simp [selfCodes]⟩
+
+/-- the 407 of a pass is the MAIN request's: when the main request can be built (or there is
+    none) a pass decides only the 404, the plain error of an unparsable target, or the panic -/
+theorem routeOnce_done_main_builds (cfg : ExecCfg) (m : Bytes) (hr : Bool)
+    (main : Option (Rule × Bytes × Option Nat)) (copy : Option (Rule × Bytes)) (st : ExecState) (r : RouteRes)
+    (hb : (main.bind fun x => cfg.build x.1.internal) = none)
+    (h : (routeOnce cfg m hr main copy st).2 = .done r) :
+    (∃ msg, r = .userError 404 msg) ∨ r = .plainError ∨ r = .panicked := by
+  unfold routeOnce at h
+  simp only [hb] at h
+  split at h
+  · simp only [Stage.done.injEq] at h; exact Or.inr (Or.inl h.symm)
+  · split at h
+    · simp only [Stage.done.injEq] at h; exact Or.inr (Or.inr h.symm)
+    · exact Or.inl (performBoth_done _ _ _ _ _ _ _ h)
 
 /-- **one response, of a known kind.** For every rule pair, retry chain, fault script: the routing
     half ends in exactly one of: the answer of a scripted origin; a user error 404 / 407 / 502;
